@@ -20,6 +20,14 @@ UNITS = {
     ],
 }
 
+UNITS["C02"] = [
+    dict(kind="verus", name="c02_partial", template="specs/c02_partial.vrs",
+         under_contract=["PartialVersion::is_complete", "PartialVersion::full_range"],
+         vacuity=["is_complete", "full_range"], replay="c02_partial",
+         assumptions=["contract of rangemap::RangeInclusiveSet::gaps / Iterator::count (lib/rangeset.vrs), validated by depcheck (bounded)"]),
+]
+
 NOTES = {
+    "C02": "bookkeeping algebra of one actor: PartialVersion completeness; gap computation; contains predicates",
     "C08": "per-call tiling contract of the real ChunkedChanges::next + verified driver for the whole-run statement; chunk_range: see kani unit",
 }
